@@ -227,7 +227,10 @@ def _generate_code(
     imports = []
     classes = []
     generators = []
-    for data in structure:
+    # Generators rename their models so every one of them is created before any nested class is rendered,
+    # otherwise a nested model that refers to its parent would use the parent's original name
+    level_generators = [class_generator(data["model"], **class_generator_kwargs) for data in structure]
+    for data, generator in zip(structure, level_generators):
         nested_imports, nested_classes = _generate_code(
             data["nested"],
             class_generator,
@@ -235,10 +238,7 @@ def _generate_code(
             lvl=lvl + 1
         )
         imports.extend(nested_imports)
-        generators.append((
-            class_generator(data["model"], **class_generator_kwargs),
-            nested_classes
-        ))
+        generators.append((generator, nested_classes))
     for gen, nested_classes in generators:
         cls_imports, cls_string = gen.generate(nested_classes)
         imports.extend(cls_imports)
